@@ -110,8 +110,10 @@ class _Filterer(object):
 
             is_checking_negative_match = \
                 isinstance(search, dict) and {'$ne', '$nin'} & set(search.keys())
+            # An empty sub-document is a value to be equal to, as any non operator value.
             is_checking_positive_match = \
-                not isinstance(search, dict) or (set(search.keys()) - {'$ne', '$nin'})
+                not isinstance(search, dict) or not search or \
+                (set(search.keys()) - {'$ne', '$nin'})
             has_candidates = False
 
             if search == {'$exists': False} and not iter_key_candidates(key, document):
